@@ -20,6 +20,19 @@ type Req struct {
 	Src string       `json:"src"`
 	Dst string       `json:"dst"`
 	Pts [][2]float64 `json:"pts"`
+	// Fields asks for the derived fields of the two parsed definitions instead of a transformation.
+	Fields bool `json:"fields,omitempty"`
+}
+
+// Fields are the exported fields of a parsed definition that C09 compares.
+type Fields struct {
+	A             float64    `json:"a"`
+	B             float64    `json:"b"`
+	Rf            *float64   `json:"rf"`
+	Es            float64    `json:"es"`
+	DatumParams   []*float64 `json:"datum_params"`
+	FromGreenwich *float64   `json:"from_greenwich"`
+	ToMeter       *float64   `json:"to_meter"`
 }
 
 // Res is the reference answer (nil point: proj4js produced a non-finite value
@@ -27,6 +40,7 @@ type Req struct {
 type Res struct {
 	Points []*[2]float64 `json:"points"`
 	Error  string        `json:"error,omitempty"`
+	Fields []Fields      `json:"fields,omitempty"`
 }
 
 type golden struct {
